@@ -7,6 +7,7 @@ package go_clipper2
 //	0: horizontal segment   1: vertical segment
 //	2: L (horizontal then vertical)   3: L (vertical then horizontal)
 //	4: three collinear horizontal points (any order of the x's)
+//	5: four-point staple (vertical, horizontal, vertical back)
 func vPolyline(name string, shape int64, bound int64) Path64 {
 	x0, x1, x2 := vInt(name+"x0", -bound, bound), vInt(name+"x1", -bound, bound), vInt(name+"x2", -bound, bound)
 	y0, y1 := vInt(name+"y0", -bound, bound), vInt(name+"y1", -bound, bound)
@@ -25,6 +26,10 @@ func vPolyline(name string, shape int64, bound int64) Path64 {
 		vAssume(x0 != x1)
 		vAssume(y0 != y1)
 		return Path64{{x0, y0}, {x0, y1}, {x1, y1}}
+	case 5: // staple: up (or down), across, back: a local extremum with a flat top
+		vAssume(x0 != x1)
+		vAssume(y0 != y1)
+		return Path64{{x0, y0}, {x0, y1}, {x1, y1}, {x1, y0}}
 	default:
 		vAssume(x0 != x1)
 		vAssume(x1 != x2)
